@@ -1209,6 +1209,16 @@ class Exec(ExprMixin, CallMixin):
             else:
                 normals.append(exit_st)
         normals = [x for x in normals if x is not None]
+        if len(normals) > 1:
+            # a local bound on some exits only (a loop variable after `for ...: break`) would be lost in the merge: exits whose
+            # path condition is refuted outright are dropped first
+            names = set()
+            for x in normals:
+                names |= {k for k, v in x.locals.items() if v is not None}
+            if any(x.locals.get(k) is None for x in normals for k in names):
+                live = [x for x in normals if not self.infeasible(x, z3.BoolVal(True))]
+                if live:
+                    normals = live
         if getattr(lc, 'at_exit', None):
             self.entry_stack = getattr(self, 'entry_stack', []) + [entry_snapshot]
             try:
